@@ -384,7 +384,11 @@ where
             std::iter::from_fn(move || records.as_mut()?.next()).filter_map(
                 |result| match result {
                     Ok(record) => {
-                        if record.flags().is_unmapped() {
+                        // Placed records that are flagged as unmapped sort with their reference
+                        // sequence and do not belong to the unplaced region.
+                        if record.reference_sequence_id().is_none()
+                            && record.flags().is_unmapped()
+                        {
                             Some(Ok(record))
                         } else {
                             None
